@@ -102,8 +102,7 @@ func (mp *MemPool) VerifDump() (lists []VerifList, cache []types.TxID, length, o
 		cache = append(cache, k.(types.TxID))
 		return true
 	})
-	l, o := mp.Size()
-	return lists, cache, l, o
+	return lists, cache, mp.length, mp.orphan // (not Size(): it may take the read lock itself)
 }
 
 // VerifCacheTx returns the transaction the hash index holds for id (nil if none).
